@@ -402,21 +402,18 @@ Definition elements_general_write (pv : pvariant) (s : section) (start end_ : Z)
         end
     end
   else
-    (* got to do it in memory: the user's array is memcpy'd as cgsize_t whatever m_type says *)
-    match mt with
-    | I4 => RFault
-    | I8 =>
-        let '(s1, oldelems) := read_element_data s in
-        match fixed_splice elemsize (s_r0 s) (s_r1 s) start end_ (s_dim s) oldelems elements with
-        | None => RFault
-        | Some None => RErr
-        | Some (Some newelems) =>
-            let newsize := lenZ newelems in
-            let s2 := set_conn s1 newsize newelems (Some newelems) in
-            let s3 := set_range s2 (if start <? s_r0 s then start else s_r0 s)
-                                   (if s_r1 s <? end_ then end_ else s_r1 s) in
-            parent_resize pv s3 start end_ saved_offset oldsize
-        end
+    (* got to do it in memory (the user's array is memcpy'd when m_type is cgsize_t, converted with
+       cgi_convert_data otherwise: ElementDataSize values are read from it either way) *)
+    let '(s1, oldelems) := read_element_data s in
+    match fixed_splice elemsize (s_r0 s) (s_r1 s) start end_ (s_dim s) oldelems elements with
+    | None => RFault
+    | Some None => RErr
+    | Some (Some newelems) =>
+        let newsize := lenZ newelems in
+        let s2 := set_conn s1 newsize newelems (Some newelems) in
+        let s3 := set_range s2 (if start <? s_r0 s then start else s_r0 s)
+                               (if s_r1 s <? end_ then end_ else s_r1 s) in
+        parent_resize pv s3 start end_ saved_offset oldsize
     end
   end.
 
@@ -627,10 +624,6 @@ Definition poly_elements_general_write (pv : pvariant) (s : section) (start end_
   else
     (* got to do it in memory *)
     let '(s1, oldelems) := read_element_data s0 in
-    (* the "new range after the stored range" branch converts the user's array and then memcpy's it raw
-       all the same: with m_type = Integer that reads past the end of the user's array *)
-    if (match mt with I4 => true | I8 => false end) && negb (start <=? r0) && (r1 <? start) && (0 <? eds)
-    then RFault else
     match user_take elements eds with
     | None => RFault
     | Some elements' =>
